@@ -259,8 +259,8 @@ def fam_posthoc(tier: str, rng: random.Random) -> Iterator[dict]:
             for target in range(1, n + 1):
                 if mopts[target - 1] is None:
                     continue   # an inherited function object is the base's own function: decorating it IS decorating the base
-                for what in ("require", "ensure"):
-                    h = make_hist(shape, mopts, [[]] * n, kind="fn", tag="posthoc-" + shape)
+                for what, kind in (("require", "fn"), ("ensure", "fn"), ("require", "prop"), ("ensure", "static")):
+                    h = make_hist(shape, mopts, [[]] * n, kind=kind, tag="posthoc-" + shape)
                     role = "pre" if what == "require" else "post"
                     h["con"].append({"role": role, "on": "CALL", "name": 0})
                     h["posthoc"] = [{"k": target, "name": "f", "d": {"d": what, "c": len(h["con"])}}]
